@@ -119,8 +119,29 @@ def parseRes (s : String) : Option ResSpans :=
 def optField (s : String) (ok : String → Option String) : Option (Option String) :=
   if s == "!" then some none else (ok (dash s)).map some
 
+/-- the `duration` a raw document carries when it is not end − start: `f` 2^64 (sent as a float), `m<k>` −k,
+`h<k>` k + 0.5, `t<tok>` the string tok.  Result: (dur, durBad) -/
+def parseDurSpec (s : String) : Option (Nat × Option String) :=
+  let body := (s.drop 1).toString
+  match s.front with
+  | 'f' => if body.isEmpty then some (2 ^ 64, none) else none
+  | 'm' => match nat? body 1000000 with
+    | some k => if k == 0 then none else some (0, some ("-" ++ toString k))
+    | none => none
+  | 'h' => (nat? body 1000000).map (fun k => (0, some (toString k ++ ".5")))
+  | 't' => if !body.isEmpty && isTok "" body && !body.all Char.isDigit then some (0, some body) else none
+  | _ => none
+
 def parseRaw (s : String) : Option Rec :=
   match s.splitOn "." with
+  | [t, i, p, sv, n, st, en, sc, du] =>
+    if du.isEmpty then none else
+    match parseRaw8 [t, i, p, sv, n, st, en, sc], parseDurSpec du with
+    | some r, some (d, bad) => some { r with dur := d, durBad := bad }
+    | _, _ => none
+  | l => parseRaw8 l
+where parseRaw8 (l : List String) : Option Rec :=
+  match l with
   | [t, i, p, sv, n, st, en, sc] =>
     if [t, i, p, sv, n, st, en, sc].any String.isEmpty then none else
     let t := dash t; let i := dash i
@@ -149,7 +170,8 @@ def showTags (t : List (String × String)) : String :=
   if t.isEmpty then "-" else ",".intercalate (t.map (fun kv => kv.1 ++ "=" ++ kv.2))
 
 def showRec (r : Rec) : String :=
-  ":".intercalate [r.trace, r.sid, optS r.pid, optS r.svc, optS r.name, toString r.start, toString r.end_, toString r.dur,
+  ":".intercalate [r.trace, r.sid, optS r.pid, optS r.svc, optS r.name, toString r.start, toString r.end_,
+    (match r.durBad with | some txt => txt | none => toString r.dur),
     optS r.status, showTags r.tags]
 
 def showAck (a : Nat × Int) : String := s!"{a.1}/{a.2}"
